@@ -37,6 +37,7 @@ from tornado.log import app_log, gen_log
 from tornado.util import GzipDecompressor
 
 CR_OR_LF_RE = re.compile(b"\r|\n|\x00")
+_LEADING_EMPTY_LINES = re.compile(r"^(?:\r?\n)+")
 
 
 class _QuietException(Exception):
@@ -608,7 +609,8 @@ class HTTP1Connection(httputil.HTTPConnection):
         # insert between messages of a reused connection.  Per RFC 7230,
         # we SHOULD ignore at least one empty line before the request.
         # http://tools.ietf.org/html/rfc7230#section-3.5
-        data_str = native_str(data.decode("latin1")).lstrip("\r\n")
+        # Skip leading empty lines (RFC 9112 2.2); a stray CR is not a line.
+        data_str = _LEADING_EMPTY_LINES.sub("", native_str(data.decode("latin1")))
         # RFC 7230 section allows for both CRLF and bare LF.
         eol = data_str.find("\n")
         start_line = data_str[:eol].rstrip("\r")
